@@ -206,9 +206,9 @@ class RunMonitor:
             ev["exc"] = repr(e)
             raise
         if P.mode == "he":
-            ev["y"], ev["s"] = float(res[0]), float(res[1])
+            ev["y"], ev["s"] = float(np.asarray(res[0]).ravel()[0]), float(res[1])
         else:
-            ev["y"], ev["s"] = float(res), None
+            ev["y"], ev["s"] = float(np.asarray(res).ravel()[0]), None
         return res
 
     def _scripted_value(self, xx, phase):
@@ -1386,7 +1386,7 @@ class RunMonitor:
         self.fl = None
         user_opts = dict(P.options)
         opts_copy = copy.deepcopy(user_opts)
-        args = P.bads_args()
+        args = P.bads_args(self.spec.get("arg_spelling", "2d"))
         mon = self
 
         # plain closures, not bound methods: OptimizeResult deep-copies the
